@@ -62,8 +62,9 @@ Definition init_dict (h : heap) (hdrs : option ref) : res dict :=
 
 (* what a request through a connection with root (addr, sids) and adapter
    list [ads] hands to the opener, as a function of the VALUES of the caller's
-   objects; errors in the order the code raises them *)
-Definition spec_of (h : heap) (addr : str) (sids : bool) (ads : list adapter) (q : reqargs) : res captured :=
+   objects, and what it returns to the caller: the opener's answer, decoded or raw, passed through the
+   response processors of [ads]; errors in the order the code raises them *)
+Definition spec_of (h : heap) (addr : str) (sids : bool) (ads : list adapter) (q : reqargs) : res (captured * rval) :=
   match init_dict h (a_headers q) with
   | Err e => Err e
   | Ok d0 =>
@@ -71,7 +72,8 @@ Definition spec_of (h : heap) (addr : str) (sids : bool) (ads : list adapter) (q
       | Err e => Err e
       | Ok (p, d) =>
           match read_params h (a_params q), read_body h (a_data q) with
-          | Ok params, Ok data => Ok (snd (assemble addr sids ads p (a_meth q) params data d))
+          | Ok params, Ok data =>
+              bind (respond ads (a_raw q) (a_resp q)) (fun v => Ok (snd (assemble addr sids ads p (a_meth q) params data d), v))
           | _, _ => Err OtherErr
           end
       end
@@ -512,8 +514,8 @@ Proof. intros (ops & N & ->). apply run_ok; [apply init_wf|exact N]. Qed.
 (* ------------------------------------------------------------------ *)
 (* what a request / a wrapper call observes                             *)
 
-Definition omap (r : res captured) : res obsv :=
-  match r with Ok c => Ok (OReq c) | Err e => Err e end.
+Definition omap (r : res (captured * rval)) : res obsv :=
+  match r with Ok (c, v) => Ok (OReq c v) | Err e => Err e end.
 
 Lemma request_obs st i q c ra : wf_state st ->
   nth_error (conns st) i = Some c -> resolve st q = Ok ra ->
@@ -523,7 +525,7 @@ Proof.
   intros (A & _ & _) Ec Er. cbn [step]. rewrite Ec, Er.
   assert (Wc : wf_conn (heap_of st) c). { rewrite Forall_forall in A. apply A. eapply nth_error_In; eauto. }
   rewrite <- (conn_request_spec _ _ ra Wc).
-  destruct (conn_request (heap_of st) c ra) as [h r]. cbn [snd]. destruct r; reflexivity.
+  destruct (conn_request (heap_of st) c ra) as [h r]. cbn [snd]. destruct r as [[? ?]|]; reflexivity.
 Qed.
 
 Definition oref_ok (h : heap) (o : option ref) : Prop :=
@@ -563,7 +565,8 @@ Lemma resolve_inv st q ra : resolve st q = Ok ra ->
                     | MVerb i => match nth_error verbs i with Some v => Ok (Some v) | None => Err OtherErr end
                     | MRaw m => Ok m end) = Ok m /\
     cobj_ref st (s_params q) = Ok p /\ cobj_ref st (s_data q) = Ok d /\ cobj_ref st (s_headers q) = Ok hd /\
-    ra = {| a_path := s_path q; a_meth := m; a_params := p; a_data := d; a_headers := hd |}.
+    ra = {| a_path := s_path q; a_meth := m; a_params := p; a_data := d; a_headers := hd;
+            a_raw := s_raw q; a_resp := s_resp q |}.
 Proof.
   unfold resolve.
   destruct (match s_meth q with MVerb i => _ | MRaw m => _ end) as [m|]; cbn [bind]; [|discriminate].
@@ -606,7 +609,7 @@ Proof.
   destruct G as (e & m' & c & -> & Wm' & Sm & Wc & Rc & Fc).
   rewrite <- (spec_of_ext (heap_of st) e) by (eapply resolve_valid; eauto).
   rewrite <- Rc, <- Fc, <- (conn_request_spec _ _ ra Wc).
-  destruct (conn_request (heap_of st ++ e) c ra) as [h r]. cbn [snd]. destruct r; reflexivity.
+  destruct (conn_request (heap_of st ++ e) c ra) as [h r]. cbn [snd]. destruct r as [[? ?]|]; reflexivity.
 Qed.
 
 (* ------------------------------------------------------------------ *)
